@@ -33,7 +33,7 @@ def plan(tier, seed):
     pseqs = [list(s) for s in cases.deriv_sequences(2 if tier == "quick" else 3, 11) if any(i >= 8 for i in s)]
     for s in range(0, len(pseqs), BATCH):
         recipes.append({"k": "derivs", "ctx": "param", "seqs": pseqs[s:s + BATCH], "render": "min", "seed": seed + s})
-    nrand = 150 if tier == "quick" else 4000
+    nrand = 600 if tier == "quick" else 4000
     for i in range(nrand):
         recipes.append({"k": "rdecls", "seed": seed * 100003 + i, "count": 12, "render": ["min", "rand"][i % 2],
                         "style": ["single", "random", "minimal", "lines"][i % 4]})
